@@ -29,6 +29,8 @@ def seqs(rng, n):
 
 
 def run(res, tier, seed):
+    import l1b as _l1b
+    _l1b.AUTO_NOISE = 7919 * seed + 13      # random bytes in every record field the spec writer does not set
     rng = common.rng_for(seed, PROP)
     coq = []
     plans = [("gac_klm", "noaa16", datetime.datetime(2003, 2, 4, 10, 0, 0), 70), ("lac_klm", "metopa", datetime.datetime(2010, 7, 1, 3, 0, 0), 60),
